@@ -17,8 +17,7 @@ CONFIG = dict(
                "the oracle judges the state the API shows and whether the policy condition matched.",
     level_note="Trusted: Lean kernel; axioms propext/Classical.choice/Quot.sound; hand-written model (checked only by the "
                "correspondence stream). Modelled, not verified: the patricia_tree crate (get/insert/remove/sorted iteration by its "
-               "documented map semantics), the byte-level AS_PATH walk of as_path_origin (the model works on segments; the harness "
-               "encodes them), Arc<IpAddr> identity (a pair of indices), the policy engine around Condition::Rpki (C14) and the rest of "
+               "documented map semantics), Arc<IpAddr> identity (a pair of indices), the policy engine around Condition::Rpki (C14) and the rest of "
                "the API conversion (C17): `show` is modelled as 'state and reason of validate, filtered iff state = configured state'.",
     lean_modules=["Rbgp.Rpki.Props"],
     theorems=[
@@ -31,6 +30,7 @@ CONFIG = dict(
         "Rbgp.Rpki.Props.covers_iff_bits",
         "Rbgp.Rpki.Props.run_never_panics",
         "Rbgp.Rpki.Props.origin_of_local_route",
+        "Rbgp.Rpki.Props.origin_bytes_eq_segments",
     ],
     harness=dict(kind="daemon", test="rpki::verif_rpki::verif_main"),
     profiles=["debug"],
@@ -45,7 +45,13 @@ CONFIG = dict(
          "one case; (e) `show` = the daemon path (import policy `rpki STATE => reject` for each of the three states, route "
          "inserted, listed and converted to the API form), for peer-learned routes and (`showl`) for locally originated ones "
          "(Source::local()) with a global AS equal to or different from the session's local AS, also while no VRP of the family "
-         "is installed; (f) malformed: masks > 32/128, unparsable cases.  Thorough tier adds the exhaustive enumeration: all "
+         "is installed; (f) malformed: masks > 32/128, unparsable cases; (g) a deterministic boundary batch in every run: every prefix length "
+         "0..32 / 0..128 with covering / equal / one-shorter / sibling / longer routes and both spellings of the prefix, max-length "
+         "one below / at / one above the route length, AS 0/1/local/max-1/max on both sides through a path, the session AS and the "
+         "global AS (peer, local and kernel sources), every final segment type incl. 255-AS segments, every colliding set operation "
+         "(duplicate, same VRP from another Arc / another address, several VRPs of one cache under one prefix in every position, "
+         "removal of absent / last / other keys, empty and duplicate resets); input classes are counted in "
+         "evidence.oracle_clause_counts.  Thorough tier adds the exhaustive enumeration: all "
          "single VRPs over the 6-bit space, all VRP pairs over a 4-bit space and all triples over a 3-bit space (prefix x 2 "
          "max-lengths x 2 AS), each against ALL routes of the space, at offsets 0 and 5 in both families.  "
          "non-trivial = some validate answered valid/invalid or some iter was non-empty; distinct = distinct case line",
@@ -56,12 +62,25 @@ CONFIG = dict(
                   "harness/daemon/rpki_c12.rs: builds Source/Attribute/Nlri values through the public API; drives the real "
                   "TableManager (rpki_insert/withdraw/reset/drop_all, insert_route, collect_paths), PolicyTable and destination_to_api"],
     modelled_not_verified=["patricia_tree::PatriciaMap (association list sorted by key)",
-                           "Attribute::as_path_origin byte walk (segment-level model)",
                            "the export-side needs_rpki gate in the session handler (daemon/src/event/mod.rs, export policy): "
                            "not executed by this check"],
     assumptions=["AS_PATH attributes are what Attribute::decode yields (segment types 1..4, no empty segment); other paths are "
                  "compared model-vs-code but not judged by the oracle",
                  "a cache is identified by its Arc<IpAddr> allocation (one per RTR session), as the table does"],
+    oracle_stats=True,
+    # input classes (counted per case) that every run must contain; a missing one shows up in coverage_gaps
+    expect_judged=["state-valid", "state-invalid", "state-notfound", "val-on-empty-family", "route-covered-many",
+                   "maxlen-one-below-route", "maxlen-equals-route", "maxlen-one-above-route", "vrp-prefix-equals-route",
+                   "more-specific-by-one-present", "covered-by-as0-vrp",
+                   "path-absent", "path-empty", "tail-as-sequence", "tail-as-set", "tail-confed-sequence", "tail-confed-set",
+                   "tail-bad-type", "tail-empty-segment", "segment-255-as",
+                   "vrp-as-0", "vrp-as-1", "vrp-as-local", "vrp-as-max-1", "vrp-as-max", "vrp-maxlen-below-len", "vrp-maxlen-eq-len",
+                   "vrp-maxlen-255", "ins-duplicate", "ins-same-vrp-other-cache", "ins-second-vrp-same-prefix-same-cache",
+                   "rem-absent", "rem-one-of-several", "rem-last-of-prefix", "drop-nothing", "drop-several-under-one-prefix",
+                   "reset-empty", "reset-nonempty", "show-local-route", "show-peer-route", "global-as-differs-from-session-as",
+                   "origin-as-0", "origin-as-max", "policy-state-matches", "policy-state-differs"]
+                  + ["%s-len%s-%s" % (k, f, c) for k in ("val", "vrp") for f in ("4", "6")
+                     for c in ("0", "max", "max-1", "over-max", "byte-boundary", "boundary+1", "boundary-1")],
     claimed=True,
 )
 
@@ -293,9 +312,100 @@ def exhaustive():
     return out
 
 
+# ---------------------------------------------------------------------------------------------------------
+# deterministic boundary batch: every quick run hits each exact boundary (mask 0..max of both families, max-length
+# one below / at / one above the route length, AS 0 / 1 / max, every final segment type, every set-operation collision)
+
+def boundary_cases():
+    out = []
+    P7 = "(path (2 9 7))"
+    def case(ops, hdr="%d" % LOCAL):
+        return "(case %s (ops %s))" % (hdr, " ".join(ops))
+    # 1. every prefix length of both families: covering, equal, one shorter, sibling (last prefix bit flipped), longer
+    for fam, w in ((4, 32), (6, 128)):
+        ones = (1 << w) - 1
+        for l in range(0, w + 1):
+            pre = (ones >> (w - l)) << (w - l) if l else 0
+            ops = ["(ins 1 0 %s %d 7)" % (hexnet(fam, ones, l), w),               # un-normalised spelling of the prefix
+                   "(val %s %s)" % (hexnet(fam, ones, w), P7),
+                   "(val %s %s)" % (hexnet(fam, pre, l), P7)]
+            if l >= 1:
+                ops.append("(val %s %s)" % (hexnet(fam, pre, l - 1), P7))          # shorter than the VRP: not covered
+                ops.append("(val %s %s)" % (hexnet(fam, ones ^ (1 << (w - l)), w), P7))   # sibling
+            if l < w:
+                ops.append("(show valid %s %s)" % (hexnet(fam, ones, l + 1), P7))
+            ops.append("(iter %d)" % fam)
+            ops.append("(rem 1 0 %s %d 7)" % (hexnet(fam, pre, l), w))              # the normalised spelling removes it
+            ops.append("(iter %d)" % fam)
+            out.append(case(ops))
+    # 2. max-length against the route length: one below, equal, one above, 0, 255
+    for fam, w, addr in ((4, 32, 0x0A010000), (6, 128, 0x20010DB8 << 96)):
+        for l in (0, 16, w - 1, w):
+            for ml in sorted({0, max(0, l - 1), l, min(255, l + 1), min(255, l + 8), w, 255}):
+                ops = ["(ins 1 0 %s %d 7)" % (hexnet(fam, addr, l), ml)]
+                for rl in sorted({l, max(l, ml - 1), max(l, ml), max(l, min(w, ml + 1)), w}):
+                    if l <= rl <= w:
+                        ops.append("(val %s %s)" % (hexnet(fam, addr, rl), P7))
+                        ops.append("(show invalid %s %s)" % (hexnet(fam, addr, rl), P7))
+                out.append(case(ops))
+    # 3. AS numbers 0, 1, local, max-1, max on both sides (VRP and origin; origin from a path, from an empty path through the
+    #    session's local AS, and - locally originated / kernel routes - through the global AS)
+    A = [0, 1, LOCAL, 4294967294, 4294967295]
+    net, route = hexnet(4, 0x0A000000, 8), hexnet(4, 0x0A010100, 24)
+    for va in A:
+        ops = ["(ins 1 0 %s 24 %d)" % (net, va)]
+        for oa in A:
+            ops.append("(val %s (path (2 9 %d)))" % (route, oa))
+        out.append(case(ops))
+        for oa in A:
+            out.append(case(["(ins 1 0 %s 24 %d)" % (net, va), "(val %s nopath)" % route, "(show valid %s (path))" % route,
+                             "(showl valid %s nopath)" % route, "(showk valid %s (path))" % route,
+                             "(showl invalid %s (path (2 9 %d)))" % (route, oa)], "%d %d" % (oa, A[(A.index(oa) + 1) % len(A)])))
+            out.append(case(["(ins 1 0 %s 24 %d)" % (net, va), "(showl valid %s nopath)" % route,
+                             "(showk notfound %s nopath)" % route, "(show valid %s nopath)" % route], "%d %d" % (A[(A.index(oa) + 2) % len(A)], oa)))
+    # 4. every final segment type against a VRP for the local AS and one for the last AS of the path
+    tails = ["nopath", "(path)", "(path (2 9 7))", "(path (2 9) (1 7))", "(path (2 9) (1 5 7))", "(path (2 9) (3 7))", "(path (2 9) (4 7))",
+             "(path (1 7))", "(path (3 7))", "(path (4 7))", "(path (4 7) (2 8))", "(path (1 7) (2 8))", "(path (2 7) (2 8) (1 7))",
+             "(path (3 9) (2 7))", "(path (2 %s 7))" % " ".join(str(64512 + i) for i in range(254)),
+             "(path (2 9) (1 %s 7))" % " ".join(str(64512 + i) for i in range(254))]
+    bad = ["(path (2 9) (0 7))", "(path (2 9) (5 7))", "(path (2 9) (2))", "(path (2) (2 7))", "(path (2 9) (255 7))"]
+    for vasn in (LOCAL, 7, 8):
+        ops = ["(ins 1 0 %s 24 %d)" % (net, vasn)]
+        for t in tails:
+            ops.append("(val %s %s)" % (route, t))
+            ops.append("(show valid %s %s %d)" % (route, t, tails.index(t) % 4))
+            ops.append("(showl invalid %s %s)" % (route, t))
+        for t in bad:
+            ops.append("(val %s %s)" % (route, t))
+        out.append(case(ops, "%d %d" % (LOCAL, 7 if vasn == 8 else LOCAL)))
+    # 5. set operations that collide: same key twice, same key from another Arc of the address and from another address,
+    #    several VRPs of one cache under one prefix in every position, removal of absent / last / other keys, resets
+    for fam, addr, l in ((4, 0x0A010100, 24), (6, 0x20010DB8 << 96, 32)):
+        n = hexnet(fam, addr, l)
+        n2 = hexnet(fam, addr | 1, l)               # same prefix, host bit set
+        other = hexnet(fam, addr, l - 1)
+        it = "(iter %d)" % fam
+        v = "(val %s %s)" % (hexnet(fam, addr, l), P7)
+        out.append(case(["(ins 1 0 %s %d 7)" % (n, l), "(ins 1 0 %s %d 7)" % (n2, l), it, "(ins 1 1 %s %d 7)" % (n, l),
+                         "(ins 2 0 %s %d 7)" % (n, l), it, "(rem 1 0 %s %d 7)" % (n, l), it, v, "(drop 1 1)", it, v,
+                         "(drop 2 0)", it, v]))
+        out.append(case(["(ins 1 0 %s %d 7)" % (n, l), "(ins 2 0 %s %d 7)" % (n, l), "(reset 1 0 ())", it, v,
+                         "(reset 2 0 ((%s %d 7) (%s %d 7) (%s %d 8)))" % (n, l, n2, l, n, l), it, v, "(reset 3 0 ())", it]))
+        for order in ([1, 1, 2, 1], [2, 1, 1, 1], [1, 2, 1, 2, 1], [1, 1, 1], [2, 1, 2]):
+            ops = []
+            for i, c in enumerate(order):
+                ops.append("(ins %d 0 %s %d %d)" % (c, n, l + (i % 3), 7 + i))
+            ops += ["(ins 1 0 %s %d 7)" % (other, l), it, "(drop 1 0)", it, v, "(drop 2 0)", it, v]
+            out.append(case(ops))
+        out.append(case(["(rem 1 0 %s %d 7)" % (n, l), "(ins 1 0 %s %d 7)" % (n, l), "(rem 1 0 %s %d 7)" % (n, l + 1),
+                         "(rem 1 0 %s %d 8)" % (n, l), "(rem 1 1 %s %d 7)" % (n, l), "(rem 1 0 %s %d 7)" % (other, l), it,
+                         "(rem 1 0 %s %d 7)" % (n2, l), it, v, "(ins 1 0 %s %d 7)" % (n, l), it, v, "(drop 9 0)", it]))
+    return out
+
+
 def gen(seed, n, tier):
     r = Rng(seed * 1000003 + 12)
-    out = list(MALFORMED)
+    out = list(MALFORMED) + boundary_cases()
     if tier == "thorough":
         out += exhaustive()
     for i in range(n):
